@@ -86,6 +86,39 @@ func runC13(c *Ctx) {
 			}
 			okU1 = nParam == 1 && nBuilt == 1
 		}
+		if !okU1 {
+			// the same through the values the node can take (a phi here, or the returns of a rebuilding helper): the
+			// parameter itself, and the node built by the prototype's builder on the foreign-prototype edge after an
+			// assignment whose error was nil
+			nParam, nBuilt, nOther := 0, 0, 0
+			for _, l := range c.LeavesF(arg, unwraps[0].In) {
+				lv := strip(l.Val)
+				if lv != nil && lv.Op == "param" {
+					nParam++
+					continue
+				}
+				m, ok := Match(Invoke("NodeBuilder.Build", BindP("nb", AnyCall("NewBuilder", proto))), l.Val)
+				if !ok {
+					nOther++
+					continue
+				}
+				foreign, assigned := false, false
+				for _, fct := range l.Facts {
+					if _, g := Match(Bin("==", Invoke("Node.Prototype", Op("param", "")), Any()), fct.Cond); g && !fct.Val {
+						foreign = true
+					}
+					if _, g := Match(EqNil(AnyCall("AssignNode", Is(m["nb"]), Op("param", ""))), fct.Cond); g && fct.Val {
+						assigned = true
+					}
+				}
+				if foreign && assigned {
+					nBuilt++
+				} else {
+					nOther++
+				}
+			}
+			okU1 = nParam == 1 && nBuilt == 1 && nOther == 0
+		}
 		c.Check(okU1, "C13.U1-foreign-prototype-rebuilt", uw.Name+" › node given to Unwrap", unwraps[0].In.Pos(), "Unwrap receives the node itself or, on the foreign-prototype edge, the node rebuilt through "+t.proto+"'s builder (assignment error checked)", "a node loaded with a generic prototype is not rebuilt through "+t.proto+" before unwrapping (or the rebuild error is ignored)")
 		// ---- U2 unwrap side + U6 ---------------------------------------------------------------
 		okAssert, okReject := false, true
@@ -174,11 +207,40 @@ func runC13(c *Ctx) {
 			}
 		}
 		// ---- U4 ToNode --------------------------------------------------------------------------------------
-		if tn := c.Func(t.pkg, t.name+".ToNode"); tn != nil {
+		if tn0 := c.Func(t.pkg, t.name+".ToNode"); tn0 != nil {
+			tn := tn0
+			protoHere := proto
+			viaHelper := true
+			// 'return wrap(&v, Prototype)': the wrapping routine shared by the ToNode methods is analysed in their place,
+			// its prototype parameter standing for the global handed in
+			if len(c.Calls(tn.SSA, Call("bindnode.Wrap"))) == 0 {
+				viaHelper = false
+				for _, b := range tn.SSA.Blocks {
+					ret, ok := b.Instrs[len(b.Instrs)-1].(*ssa.Return)
+					if !ok || len(ret.Results) != 2 {
+						continue
+					}
+					h0, i0 := helperCall(c.RetX(ret, 0))
+					h1, i1 := helperCall(c.RetX(ret, 1))
+					if h0 == nil || h1 == nil || h0.V != h1.V || i0 != 0 || i1 != 1 || h0.Callee == nil {
+						continue
+					}
+					obj, _ := h0.Callee.Object().(*types.Func)
+					hf := c.fnOf(obj)
+					if hf == nil {
+						continue
+					}
+					for k, a := range h0.Args {
+						if _, m := Match(proto, a); m && k < len(h0.Callee.Params) {
+							tn, protoHere, viaHelper = hf, Op("param", h0.Callee.Params[k].Name()), true
+						}
+					}
+				}
+			}
 			wr := c.Calls(tn.SSA, Call("bindnode.Wrap"))
-			okWrap := len(wr) == 1
+			okWrap := len(wr) == 1 && viaHelper
 			if okWrap {
-				_, okWrap = Match(Invoke("TypedPrototype.Type", proto), wr[0].X.Args[1])
+				_, okWrap = Match(AnyCall("Type", protoHere), wr[0].X.Args[1])
 			}
 			// the recovering routine: a deferred literal, or a deferred same-package function handed the address of the
 			// error result; it calls recover() and stores an error derived from the recovered value
@@ -233,14 +295,44 @@ func runC13(c *Ctx) {
 					}
 				}
 			})
-			c.Check(ownErr == "", "C13.U4-tonode-total", tn.Name+" › refuses nothing itself", tn.SSA.Pos(), "the only error ToNode can return is the recovered panic", "ToNode returns an error of its own (at "+ownErr+"): a value that decoded without error can no longer be re-encoded")
-			c.Check(okWrap && rec && deferred, "C13.U4-tonode-total", tn.Name, tn.SSA.Pos(), "wraps with "+t.proto+".Type() under a deferred recover that turns a panic into the returned error", "ToNode does not wrap with its own prototype's type or lets bindnode panics escape")
+			c.Check(ownErr == "", "C13.U4-tonode-total", tn0.Name+" › refuses nothing itself", tn.SSA.Pos(), "the only error ToNode can return is the recovered panic", "ToNode returns an error of its own (at "+ownErr+"): a value that decoded without error can no longer be re-encoded")
+			// what is handed out is the representation-level node of the wrapped value (the type-level node encodes
+			// absent optional fields as explicit nulls, which then do not decode)
+			okRepr, nVals := true, 0
+			isRepr := func(x *X) bool {
+				_, m := Match(AnyCall("Representation", Call("bindnode.Wrap")), x)
+				return m
+			}
+			instrs(tn.SSA, func(in ssa.Instruction) {
+				switch in := in.(type) {
+				case *ssa.Store:
+					if al, isAlloc := in.Addr.(*ssa.Alloc); isAlloc && !isErrorType(in.Val.Type()) && strings.HasSuffix(deref(al.Type()).String(), "datamodel.Node") {
+						if !isNilConst(in.Val) {
+							nVals++
+							if !isRepr(c.E(in.Val)) {
+								okRepr = false
+							}
+						}
+					}
+				case *ssa.Return:
+					if len(in.Results) == 2 {
+						if r := c.RetX(in, 0); r.Op != "nil" && r.Op != "alloc" && r.Op != "var" && r.Op != "deref" {
+							nVals++
+							if !isRepr(r) {
+								okRepr = false
+							}
+						}
+					}
+				}
+			})
+			c.Check(okRepr && nVals > 0, "C13.U4-tonode-total", tn0.Name+" › representation-level node", tn.SSA.Pos(), "the node returned is bindnode.Wrap(…).Representation()", "ToNode hands out something other than the representation of the wrapped value (e.g. the type-level node): absent optional fields are then encoded as explicit nulls and the block no longer decodes")
+			c.Check(okWrap && rec && deferred, "C13.U4-tonode-total", tn0.Name, tn.SSA.Pos(), "wraps with "+t.proto+".Type() under a deferred recover that turns a panic into the returned error", "ToNode does not wrap with its own prototype's type or lets bindnode panics escape")
 		}
 	}
 	c.Floor("C13.U1-foreign-prototype-rebuilt", 3)
 	c.Floor("C13.U2-prototype-type-pairing", 6)
 	c.Floor("C13.U6-unwrapped-unmodified", 3)
-	c.Floor("C13.U4-tonode-total", 4)
+	c.Floor("C13.U4-tonode-total", 6)
 
 	// ---- U8 the Go structs mirror the IPLD schema field for field, in order: bindnode reads Go fields by position when
 	// encoding and writes them by name when decoding, so two same-typed fields in another order than the schema's
